@@ -94,6 +94,14 @@ class _OneShotSocket:
         return len(data)
 
 
+class Hang(Exception):
+    """the real code did not return from a receive call within the watchdog time (it spins or blocks for good)"""
+
+
+def _alarm(signum, frame):
+    raise Hang('the receive call did not return within 8 s')
+
+
 class _BlockingSocket:
     """the socket of a stream handler whose handle() runs ONCE, in its own thread, for the life of the connection (as
     under socketserver): recv blocks until the harness feeds a chunk, an idle timeout, or the end of the connection"""
@@ -152,8 +160,8 @@ class _SyncStreamConn:
         self._wait()
 
     def _wait(self):
-        if not self.sock.idle.wait(10):
-            raise RuntimeError('handler thread did not come back to recv within 10 s')
+        if not self.sock.idle.wait(8):
+            raise Hang('handler thread did not come back to recv within 8 s')
 
     def feed(self, chunk):
         if self.done.is_set():
@@ -454,7 +462,25 @@ class Session:
                 return [], None
             except Exception as e:  # noqa
                 return [], errkind(e)
-        return self.conns[conn].feed(chunk)
+        if getattr(self, 'hung', False):
+            return [], 'hang'
+        # watchdog: a receive call that never returns (an endless loop in a decoder, say) is reported as the escape 'hang'
+        # for this and every later step of the session instead of hanging the check
+        import signal
+        import threading
+        main = threading.current_thread() is threading.main_thread()
+        if main:
+            old = signal.signal(signal.SIGALRM, _alarm)
+            signal.setitimer(signal.ITIMER_REAL, 8)
+        try:
+            return self.conns[conn].feed(chunk)
+        except Hang:
+            self.hung = True
+            return [], 'hang'
+        finally:
+            if main:
+                signal.setitimer(signal.ITIMER_REAL, 0)
+                signal.signal(signal.SIGALRM, old)
 
     def dumps(self):
         return [[uid, dump_slave(self.blocks[uid])] for uid, _ in self.units]
